@@ -8,7 +8,10 @@ from harness.props import rebuilding as rb
 from harness.props import creation as cr
 
 RULE = ("torrents and search trees as in C13 plus decoys (same name and size, different "
-        "bytes, incl. decoys none of whose bytes verify) and destinations that already hold "
+        "bytes, incl. decoys none of whose bytes verify), INCOMPLETE search trees in which a file "
+        "is present only as such a decoy before / between / after files that are intact (fixed "
+        "shapes for v1, aligned v1, v2, hybrid, library and command line, and random ones) "
+        "and destinations that already hold "
         "correct / wrong-same-size / shorter / unrelated files; rebuild run twice into the "
         "same destination; snapshots (names, sizes, SHA-256, modes) of search directories, "
         "metafiles and destination before/after, plus the audit-hook trace of mutating "
@@ -51,6 +54,89 @@ def prepopulate(rng, dest, torrents):
     return sorted(set(kinds))
 
 
+def expectations(torrents, sdirs, placed, metas=()):
+    """What the property allows to appear in the destination: the candidates by (file name,
+    length), the decoys none of whose bytes verify, and per assigned destination path the
+    recorded name / length / described bytes, and where its bytes lie relative to the pieces
+    (v1: offset in the stream; v2 / hybrid: pieces start with the file)."""
+    from harness import refspec
+    exp = {"candidates": {}, "assigned": {}, "recorded": {}, "originals": {}, "spans": {},
+           "total_decoys": [open(p, "rb").read() for k, p in placed if k in ("total", "decoy-only")]}
+    for s in sdirs:
+        for base, _, files in os.walk(s):
+            for f in files:
+                data = open(os.path.join(base, f), "rb").read()
+                exp["candidates"].setdefault((f, len(data)), []).append(data)
+    for t in torrents:
+        for p, blob in rb.torrent_files(t):
+            rel = t["name"] if t["single"] else os.path.join(t["name"], *p.split("/"))
+            exp["assigned"][rel] = (p.split("/")[-1], len(blob))
+            exp["recorded"][rel] = len(blob)
+            exp["originals"][rel] = blob.bytes()
+    for t, (_, raw) in zip(torrents, metas):
+        info = refspec.lenient_decode(raw)[b"info"]
+        if b"file tree" in info or b"files" not in info:
+            continue
+        off = 0
+        for e in info[b"files"]:
+            rel = os.path.join(t["name"], *[c.decode("utf8") for c in e[b"path"]])
+            exp["spans"][rel] = (off, info[b"piece length"])
+            off += e[b"length"]
+    return exp
+
+
+def no_byte_can_verify(data, original, span):
+    """True when `data` differs from the described bytes inside EVERY piece that covers part of
+    the file - then no piece holding any of its bytes can verify (a file that agrees with the
+    payload on the whole part some piece covers may verify there, whatever else it holds)."""
+    off, pl = span
+    cuts = [0] + [c for c in range(pl - off % pl, len(data), pl)] + [len(data)]
+    return all(data[a:b] != original[a:b] for a, b in zip(cuts, cuts[1:]) if b > a)
+
+
+def judged_round(box, sdirs, dest, exp, do_rebuild):
+    """One rebuild between two snapshots; returns the reason of a violation or None.  Only
+    effects are judged: `do_rebuild` must not let implementation exceptions escape."""
+    candidates, total_decoys = exp["candidates"], exp["total_decoys"]
+    assigned, recorded, originals = exp["assigned"], exp["recorded"], exp["originals"]
+    outside0 = {d: snapshot(d) for d in sdirs + [os.path.join(box, "metas")]}
+    dest0 = snapshot(dest)
+    with effects.traced() as tr:
+        do_rebuild()
+    why = None
+    for d in outside0:
+        if snapshot(d) != outside0[d]:
+            why = f"search directory or metafiles changed: {os.path.basename(d)}"
+    dest1 = snapshot(dest)
+    for rel, old in dest0.items():
+        new = dest1.get(rel)
+        if old[0] == "f" and rel in recorded and old[1] >= recorded[rel] and new != old:
+            why = f"destination file {rel} had its full length and was altered"
+        if rel not in assigned and new != old and old[0] == "f":
+            why = f"unrelated destination file {rel} altered"
+        if new is None:
+            why = f"destination entry {rel} removed"
+    for rel, new in dest1.items():
+        if new[0] != "f" or dest0.get(rel) == new:
+            continue
+        data = open(os.path.join(dest, rel), "rb").read()
+        if rel not in assigned:
+            why = f"wrote {rel}, which the metafile does not assign"
+        elif data not in candidates.get(assigned[rel], []):
+            why = f"{rel} is not a copy of a search file with the recorded name and length"
+        elif data in total_decoys:
+            why = f"{rel}: a decoy none of whose bytes verify was placed"
+        elif rel in originals and data != originals[rel] and \
+                no_byte_can_verify(data, originals[rel], exp["spans"].get(rel, (0, 16384))):
+            why = (f"{rel}: placed a same-named same-sized file that differs from the payload "
+                   "described for that path inside every piece, so none of its bytes verify")
+    for ev in tr.mutating():
+        for pth in ev[1:] if ev[0] in ("rename", "move") else ev[-1:]:
+            if pth and not (pth == dest or pth.startswith(dest + os.sep)):
+                why = f"mutating operation outside the destination: {ev}"
+    return why
+
+
 def run_case(run, case_seed, tier):
     rng = random.Random(case_seed)
     torrents = [rb.gen_torrent(rng, str(i), tier) for i in range(rng.choice([1, 1, 2]))]
@@ -64,63 +150,23 @@ def run_case(run, case_seed, tier):
                 return          # creation failed: no metafile to judge rebuild with
             raise
         sdirs, placed = rb.scatter(rng, box, torrents, decoys="safe")
+        case["incomplete"] = rng.random() < 0.3
+        if case["incomplete"]:
+            # an incomplete search tree: some files are present only as a same-size decoy none of
+            # whose bytes verify (the intact copy is overwritten in place)
+            for i, (k, path) in enumerate(placed):
+                if k == "orig" and os.path.getsize(path) and rng.random() < 0.4:
+                    data = open(path, "rb").read()
+                    with open(path, "wb") as fd:
+                        fd.write(total_decoy(data))
+                    placed[i] = ("decoy-only", path)
         dest = os.path.join(box, "dest")
         os.makedirs(dest)
         pre = prepopulate(rng, dest, torrents)
-        candidates = {}
-        for s in sdirs:
-            for base, _, files in os.walk(s):
-                for f in files:
-                    data = open(os.path.join(base, f), "rb").read()
-                    candidates.setdefault((f, len(data)), []).append(data)
-        total_decoys = [open(p, "rb").read() for k, p in placed if k == "total"]
-        assigned = {}
-        recorded = {}
-        originals = {}
-        for t in torrents:
-            for p, blob in rb.torrent_files(t):
-                rel = t["name"] if t["single"] else os.path.join(t["name"], *p.split("/"))
-                assigned[rel] = (p.split("/")[-1], len(blob))
-                recorded[rel] = len(blob)
-                originals[rel] = blob.bytes()
+        exp = expectations(torrents, sdirs, placed, metas)
         for round_no in (1, 2):
-            outside0 = {d: snapshot(d) for d in sdirs + [os.path.join(box, "metas")]}
-            dest0 = snapshot(dest)
-            with effects.traced() as tr:
-                _, raised = rb.rebuild_with_model(box, [m for m, _ in metas], sdirs, dest, DRV[0],
-                                                  dict(case, round=round_no))
-            why = None
-            for d in outside0:
-                if snapshot(d) != outside0[d]:
-                    why = f"search directory or metafiles changed: {os.path.basename(d)}"
-            dest1 = snapshot(dest)
-            for rel, old in dest0.items():
-                new = dest1.get(rel)
-                if old[0] == "f" and rel in recorded and old[1] >= recorded[rel] and new != old:
-                    why = f"destination file {rel} had its full length and was altered"
-                if rel not in assigned and new != old and old[0] == "f":
-                    why = f"unrelated destination file {rel} altered"
-                if new is None:
-                    why = f"destination entry {rel} removed"
-            for rel, new in dest1.items():
-                if new[0] != "f" or dest0.get(rel) == new:
-                    continue
-                data = open(os.path.join(dest, rel), "rb").read()
-                if rel not in assigned:
-                    why = f"wrote {rel}, which the metafile does not assign"
-                elif data not in candidates.get(assigned[rel], []):
-                    why = f"{rel} is not a copy of a search file with the recorded name and length"
-                elif data in total_decoys:
-                    why = f"{rel}: a decoy none of whose bytes verify was placed"
-                elif rel in originals and data != originals[rel] and not any(
-                        data[i:i + 16384] == originals[rel][i:i + 16384]
-                        for i in range(0, len(data), 16384)):
-                    why = (f"{rel}: placed a same-named same-sized file none of whose blocks "
-                           "agree with the payload described for that path")
-            for ev in tr.mutating():
-                for pth in ev[1:] if ev[0] in ("rename", "move") else ev[-1:]:
-                    if pth and not (pth == dest or pth.startswith(dest + os.sep)):
-                        why = f"mutating operation outside the destination: {ev}"
+            why = judged_round(box, sdirs, dest, exp, lambda: rb.rebuild_with_model(
+                box, [m for m, _ in metas], sdirs, dest, DRV[0], dict(case, round=round_no)))
             if why:
                 run.fail("impl-vs-spec", dict(case, round=round_no), {"why": why})
                 break
@@ -206,6 +252,94 @@ def standing(run):
                 run.case(["standing", scen, version], True, sample=case, classes=["standing-" + scen])
 
 
+def total_decoy(data):
+    """Same size, every byte different: none of its bytes verify."""
+    return bytes(x ^ 0xFF for x in data)
+
+
+# (label, files in listing order, names present ONLY as a decoy, names absent altogether)
+DECOY_ONLY_SHAPES = [
+    ("first-shares-pieces", [("a.bin", "r1.40000"), ("b.bin", "r2.50000"), ("c.bin", "r3.30000")], ["a.bin"], []),
+    ("middle-shares-pieces", [("a.bin", "r1.20000"), ("b.bin", "r2.25000"), ("c.bin", "r3.60000")], ["b.bin"], []),
+    ("middle-whole-pieces", [("a.bin", "r1.16384"), ("b.bin", "r2.32768"), ("c.bin", "r3.20000"),
+                             ("d.bin", "r4.16384")], ["b.bin"], []),
+    ("two-decoy-only-one-absent", [("a.bin", "r1.100"), ("b.bin", "r2.33000"), ("c.bin", "r3.16384"),
+                                   ("d.bin", "r4.5"), ("e.bin", "r5.70000"), ("sub/f.bin", "r6.16385")],
+     ["b.bin", "d.bin"], ["c.bin"]),
+    ("last-is-decoy-only", [("a.bin", "r1.30000"), ("b.bin", "r2.20000")], ["b.bin"], []),
+]
+
+
+def decoy_only(run):
+    """Fixed scenarios with an INCOMPLETE search tree: some file of the torrent is present only
+    as a same-name same-size decoy none of whose bytes verify (two such candidates, in two
+    places), other files are intact, in every position relative to the pieces that do verify
+    (before / between / after; sharing pieces with its neighbours or occupying whole pieces).
+    Library and command line, first and second rebuild into the same destination; v1, aligned
+    v1, v2, hybrid; singly and as a batch of two metafiles."""
+    from harness.common import write_tree, raised_in_repo
+    variants = [(1, {}), (1, {"align": True}), (2, {}), (3, {})]
+    for label, files, decoyed, absent in DECOY_ONLY_SHAPES:
+        for version, opts in variants:
+            for via in ("library", "cli"):
+                if via == "cli" and (version != 1 or opts) and label != "middle-shares-pieces":
+                    continue
+                with sandbox("c14d") as box:
+                    t = {"name": "pack", "files": files, "pl": 16384, "version": version, "single": False,
+                         "source": "own", "create_opts": dict(opts)}
+                    torrents = [t]
+                    if label == "two-decoy-only-one-absent":
+                        torrents.append({"name": "second", "files": [("m.bin", "r7.20000"), ("n.bin", "r8.40000"),
+                                                                      ("o.bin", "r9.100")],
+                                         "pl": 16384, "version": version, "single": False, "source": "own",
+                                         "create_opts": dict(opts)})
+                    case = {"scenario": "decoy-only-file", "shape": label, "version": version, "opts": opts,
+                            "via": via}
+                    try:
+                        metas = [rb.write_metafile(box, x, i) for i, x in enumerate(torrents)]
+                    except Exception as exc:
+                        if raised_in_repo(exc):
+                            continue
+                        raise
+                    search = os.path.join(box, "search")
+                    placed = []
+                    for x in torrents:
+                        only_decoy = decoyed if x is t else ["m.bin"]
+                        for p, blob in rb.torrent_files(x):
+                            fname, data = p.split("/")[-1], blob.bytes()
+                            if fname in absent:
+                                continue
+                            if fname in only_decoy:
+                                write_tree(search, [("0-early/" + fname, total_decoy(data)),
+                                                    ("zz-late/deep/" + fname, bytes((b + 1) & 0xFF for b in data))])
+                                placed += [("decoy-only", os.path.join(search, "0-early", fname)),
+                                           ("decoy-only", os.path.join(search, "zz-late", "deep", fname))]
+                            else:
+                                write_tree(search, [("k/" + x["name"] + "/" + p, data)])
+                                placed.append(("orig", os.path.join(search, "k", x["name"], *p.split("/"))))
+                    dest = os.path.join(box, "dest")
+                    os.makedirs(dest)
+                    exp = expectations(torrents, [search], placed, metas)
+                    mpaths = [m for m, _ in metas]
+
+                    def go(round_no):
+                        if via == "library":
+                            rb.rebuild_with_model(box, mpaths, [search], dest, DRV[0], dict(case, round=round_no))
+                            return
+                        try:
+                            impl.cli(["rebuild", "-m"] + mpaths + ["-c", search, "-d", dest])
+                        except Exception as exc:
+                            if not (raised_in_repo(exc) or type(exc).__name__ == "CliExit"):
+                                raise       # a crash of the implementation is not what C14 judges
+                    for round_no in (1, 2):
+                        why = judged_round(box, [search], dest, exp, lambda: go(round_no))
+                        if why:
+                            run.fail("impl-vs-spec", dict(case, round=round_no), {"why": why})
+                            break
+                run.case(["decoy-only", label, version, bool(opts), via], True, sample=case,
+                         classes=["decoy-only-file", f"v{version}", via])
+
+
 def run(tier, seed, replay=None):
     impl.use_repo()
     run = Run("C14", tier, seed, RULE)
@@ -219,5 +353,7 @@ def run(tier, seed, replay=None):
         releases(run, seed)
     if not replay or str(replay["case"].get("scenario", "")).startswith("standing"):
         standing(run)
+    if not replay or replay["case"].get("scenario") == "decoy-only-file":
+        decoy_only(run)
     rb.settle_match(run, DRV[0].run())
     return run.finish()
